@@ -15,7 +15,7 @@
    flag of constraint_currents is inverted relative to its docstring -- magnitudes are returned when
    the flag is False.  The model follows the code. *)
 From Coq Require Import ZArith QArith Reals Lra List Bool Permutation.
-From ACN Require Import Base.Num Base.NumR Model.Ledger Model.LedgerR Model.LedgerQ Model.Analysis Model.AnalysisR
+From ACN Require Import Base.Num Base.NumR Gen.Analysis_R Model.Ledger Model.LedgerR Model.LedgerQ Model.Analysis Model.AnalysisR
                         Model.AnalysisQ Proofs.Ledger Proofs.Analysis.
 Import ListNotations.
 Open Scope R_scope.
@@ -44,15 +44,15 @@ Print Assumptions C18_aggregate.
    - nothing else is returned.   `requested None c` is true (constraint_ids=None). *)
 Theorem C18_constraint_currents : forall (tr : traj (F:=R)) flag ids,
   wf tr -> NoDup (t_cindex tr) ->
-  map fst (constraint_currents RO tr flag ids) = filter (requested ids) (t_cindex tr)
+  map fst (constraint_currents RO RA tr flag ids) = filter (requested ids) (t_cindex tr)
   /\ (forall j c, nth_error (t_cindex tr) j = Some c -> requested ids c = true ->
-        dict_get c (constraint_currents RO tr flag ids)
-        = Some (if negb flag
+        dict_get c (constraint_currents RO RA tr flag ids)
+        = Some (if An_abs_applied flag
                 then Mag (map (fun t => sqrt (cc_re_spec RO tr j t * cc_re_spec RO tr j t
                                               + cc_im_spec RO tr j t * cc_im_spec RO tr j t)) (periods tr))
                 else Cplx (map (cc_re_spec RO tr j) (periods tr)) (map (cc_im_spec RO tr j) (periods tr))))
   /\ (forall c, requested ids c = false \/ ~ In c (t_cindex tr) ->
-        dict_get c (constraint_currents RO tr flag ids) = None).
+        dict_get c (constraint_currents RO RA tr flag ids) = None).
 Proof. exact constraint_currents_ok. Qed.
 Print Assumptions C18_constraint_currents.
 
@@ -70,7 +70,7 @@ Print Assumptions C18_phase_aware_sum.
 (* the result depends on the requested ids only as a set (no assumption at all) *)
 Theorem C18_request_order_irrelevant : forall (tr : traj (F:=R)) flag ids ids',
   (forall c, In c ids <-> In c ids') ->
-  constraint_currents RO tr flag (Some ids) = constraint_currents RO tr flag (Some ids').
+  constraint_currents RO RA tr flag (Some ids) = constraint_currents RO RA tr flag (Some ids').
 Proof. exact constraint_currents_order_irrelevant. Qed.
 Print Assumptions C18_request_order_irrelevant.
 
@@ -149,7 +149,7 @@ Proof. exact analysis_example_wf. Qed.
 Example C18_exec_example :
   let tr := mk_traj 2%nat [[16; 0]; [8; 8]; [0; 32]]%Q [208; 240; 277]%Q [(1, 0); (0, 1); (-1, 0)]%Q
                     [10%Z; 11%Z] [[1; 1; 0]; [0; 1; -1]]%Q [(10, 4); (5, 5)]%Q 2%nat 5%Q in
-  constraint_currents QO tr false (Some [11%Z; 10%Z; 11%Z]) = constraint_currents QO tr false (Some [10%Z; 11%Z])
-  /\ map fst (constraint_currents QO tr false (Some [11%Z; 10%Z; 11%Z])) = [10%Z; 11%Z]
+  constraint_currents QO QA tr false (Some [11%Z; 10%Z; 11%Z]) = constraint_currents QO QA tr false (Some [10%Z; 11%Z])
+  /\ map fst (constraint_currents QO QA tr false (Some [11%Z; 10%Z; 11%Z])) = [10%Z; 11%Z]
   /\ check_c18_example tr = true.
 Proof. vm_compute. repeat split; reflexivity. Qed.
